@@ -3,8 +3,17 @@ package main
 import (
 	"encoding/json"
 	"go/format"
+	"os"
 )
 
 func jsonUnmarshal(b []byte, v interface{}) error { return json.Unmarshal(b, v) }
 
 func formatSource(src []byte) ([]byte, error) { return format.Source(src) }
+
+// repoDir is the tree under test: /repo, unless the tooling points the monitors at a scratch copy.
+func repoDir() string {
+	if d := os.Getenv("VERIF_REPO"); d != "" {
+		return d
+	}
+	return "/repo"
+}
